@@ -202,7 +202,9 @@ class XGen:
             docpr["descr"] = r.choice(["a picture", "", "  ", 'al"t<'])
         if self.maybe(0.4):
             docpr["title"] = r.choice(["the title", ""])
-        pic = X("a:graphic", {}, [X("a:graphicData", {}, [X("pic:pic", {}, [X("pic:blipFill", {}, [blip])])])])
+        # (a:graphicData names the kind of graphic by the namespace URI of its content: "@NS:pic" is written as the picture namespace of the
+        #  namespace set the package is spelled in - Transitional or Strict)
+        pic = X("a:graphic", {}, [X("a:graphicData", {"uri": "@NS:pic"} if self.maybe(0.7) else {}, [X("pic:pic", {}, [X("pic:blipFill", {}, [blip])])])])
         kids = ([X("wp:docPr", docpr)] if docpr or self.maybe(0.5) else []) + [pic]
         return X("w:drawing", {}, [X(r.choice(["wp:inline", "wp:anchor"]), {}, kids)])
 
@@ -293,7 +295,10 @@ class XGen:
                 attrs = {}
                 kind = r.choice(["rid", "anchor", "both", "none"])
                 if kind in ("rid", "both"):
-                    attrs["r:id"] = self.add_rel(r.choice(["http://example.com/", "http://example.com/a?b=1&c=2#frag", 'http://e.com/"q"', "http://example.com/p#one#two", "#top", "doc2.docx#a#b"]),
+                    attrs["r:id"] = self.add_rel(r.choice(["http://example.com/", "http://example.com/a?b=1&c=2#frag", 'http://e.com/"q"', "http://example.com/p#one#two", "#top", "doc2.docx#a#b",
+                                                           # targets a URL library would normalise: they are strings, kept as written
+                                                           "HTTP://Example.COM/Path?", "C:\\dir\\file.docx", "file:///c:/x.docx#old", "http://example.com/a?#f",
+                                                           "//host/share/x", "mailto:a@b.example?subject=x", "http://example.com/a%20b#f%23", "http://[::1]/x#y"]),
                                                  "http://schemas.openxmlformats.org/officeDocument/2006/relationships/hyperlink")
                 if kind in ("anchor", "both"):
                     attrs["w:anchor"] = r.choice(["bm1", "bm2", 'x"y'])
@@ -361,9 +366,16 @@ class XGen:
             tblpr = [X("w:tblPr")]
         if self.maybe(self.stray_in_table):
             # range markup and structured tags may sit directly between the rows of a table (the converter answers with a warning)
+            cell_ = lambda: X("w:tc", {}, [X("w:p", {}, [X("w:r", {}, [X("w:t", {}, [XT(self.text())])])])])
             stray = r.choice([X("w:bookmarkStart", {"w:id": "9", "w:name": "between_rows"}),
-                              X("w:sdt", {}, [X("w:sdtPr", {}, [X("wordml:checkbox")])]), X("w:bookmarkEnd", {"w:id": "9"})])
+                              X("w:sdt", {}, [X("w:sdtPr", {}, [X("wordml:checkbox")])]), X("w:bookmarkEnd", {"w:id": "9"}),
+                              # a check-box content control WRAPPED AROUND a row (its content holds the row): schema-valid, read as one check box
+                              X("w:sdt", {}, [X("w:sdtPr", {}, [X("wordml:checkbox")]), X("w:sdtContent", {}, [X("w:tr", {}, [cell_(), cell_()])])])])
             trs.insert(r.randint(0, len(trs)), stray)
+            if self.maybe(0.5) and trs and getattr(trs[0], "name", None) == "w:tr":
+                # ... and around a cell, inside a row
+                trs[0].children.insert(r.randint(0, len(trs[0].children)),
+                                       X("w:sdt", {}, [X("w:sdtPr", {}, [X("wordml:checkbox")]), X("w:sdtContent", {}, [cell_()])]))
         return X("w:tbl", {}, tblpr + ([X("w:tblGrid")] if self.maybe(0.7) else []) + trs)
 
     def blocks(self, depth, n, tables=True):
